@@ -485,7 +485,7 @@ int main(int argc, char **argv) {
         void *k = shim_countable_new(1, 0); shim_future_set(k, nullptr); shim_future_release(k);
         Case wc; wc.kind = DATACOPY; wc.root_shape = 0; wc.prog = {{{OP_REQ, -1}, {OP_REQ, 1}}};
         hc::FairByteChooser ch(nullptr, 0, 0); RunInfo ri; std::string e = run_case(wc, ch, &ri);
-        if (!e.empty()) { fprintf(stderr, "warm-up failed: %s\n", e.c_str()); return 2; }
+        if (!e.empty()) { vf::record_failure(wc.repr(), "(sequential warm-up case) " + e); vf::dump(); return 1; }
     }
     g_trace = getenv("C29_TRACE") != nullptr;
     if (mode == "replay") {
